@@ -330,6 +330,7 @@ var (
 	xMtypeBytes           = []byte("X-Mtype")
 	errBadHTTPMsg         = errors.New("bad HTTP message")
 	errUnsupportHTTPCode  = errors.New("unsupport HTTP status code")
+	errMsgTooLarge        = errors.New("size of HTTP message exceeds limit")
 )
 
 func (h *httproto) unpack(m erpc.Message, bb *utils.ByteBuffer) (size int, msg []byte, err error) {
@@ -398,6 +399,10 @@ func (h *httproto) unpack(m erpc.Message, bb *utils.ByteBuffer) (size int, msg [
 	if bodySize <= 0 {
 		return size, msg, nil
 	}
+	// the announced body must fit the read limit before it is buffered
+	if uint64(bodySize) > uint64(erpc.GetReadLimit()) {
+		return 0, nil, errMsgTooLarge
+	}
 	bb.ChangeLen(bodySize)
 	_, err = io.ReadFull(h.rw, bb.B)
 	if err != nil {
@@ -426,6 +431,10 @@ func (h *httproto) readLine(bb *utils.ByteBuffer) error {
 				bb.B = bb.B[:n-1]
 			}
 			return nil
+		}
+		// a line must fit the read limit as well
+		if uint64(bb.Len()) >= uint64(erpc.GetReadLimit()) {
+			return errMsgTooLarge
 		}
 		bb.Write(oneByte)
 	}
